@@ -105,6 +105,45 @@ let run (toks : string list) : string =
       let cls = if r.M.s_panic then "panic" else if r.M.s_err then "err" else "ok" in
       let dig = match r.M.s_input with Some inp -> hex_of_bytes (M.sha256 inp) | None -> "noinput" in
       Printf.sprintf "%s %d %s %s" cls (int_of_nat r.M.s_n) (hex_of_bytes r.M.s_out) dig
+  | "build" :: spec :: menc :: ops :: _ ->
+      (* builder calls applied one by one to the empty message with the given headers; the observable is the
+         resulting part / embed / attachment lists and whether any header is left *)
+      let (m0, _, _, _) = parse_msg spec in
+      let st = ref (M.empty_state (enc_of menc) m0) in
+      let opt f s = if s = "-" then None else Some (f s) in
+      let firstn k l = List.filteri (fun i _ -> i < k) l in
+      List.iter (fun op ->
+        if String.length op > 0 then begin
+          let tag = op.[0] and body = String.sub op 1 (String.length op - 1) in
+          let o = match tag with
+            | 's' | 'a' -> (match fields body with
+                | [ct; en; cs; de; ch] ->
+                    let (ct, en, cs, de, pr) = (bytes_of_hex ct, opt enc_of en, opt bytes_of_hex cs, bytes_of_hex de, prod_of ch "0") in
+                    if tag = 's' then M.BSetBody (ct, en, cs, de, pr) else M.BAddAlt (ct, en, cs, de, pr)
+                | _ -> failwith "bad part op")
+            | 't' | 'e' -> (match fields body with
+                | [nm; mi; en; de; ch] ->
+                    let f = { M.f_name = bytes_of_hex nm; M.f_mime = bytes_of_hex mi; M.f_enc = opt enc_of en;
+                              M.f_desc = bytes_of_hex de; M.f_hdr = []; M.f_prod = prod_of ch "0" } in
+                    if tag = 't' then M.BAttach f else M.BEmbed f
+                | _ -> failwith "bad file op")
+            | 'T' -> M.BSetAttach (firstn (int_of_string body) (!st).M.b_msg.M.m_attach)
+            | 'E' -> M.BSetEmbeds (firstn (int_of_string body) (!st).M.b_msg.M.m_embeds)
+            | 'u' -> (match body with "t" -> M.BUnsetAttach | "e" -> M.BUnsetEmbeds | "p" -> M.BUnsetParts | _ -> failwith "bad unset op")
+            | 'r' -> M.BReset
+            | _ -> failwith "bad builder op" in
+          st := M.apply_bop !st o
+        end) (split_on '/' ops);
+      let m = (!st).M.b_msg in
+      let content (p : M.producer) = hex_of_bytes (List.concat p.M.pchunks) in
+      let encs e = String.concat "" (List.map (fun x -> String.make 1 (Char.chr (int_of_n x))) (M.enc_name e)) in
+      let part (p : M.part) = Printf.sprintf "%s:%s:%s:%s:%s" (hex_of_bytes p.M.p_ctype) (encs p.M.p_enc) (hex_of_bytes p.M.p_charset)
+                                (hex_of_bytes p.M.p_desc) (content p.M.p_prod) in
+      let file (f : M.file) = Printf.sprintf "%s:%s:%s:%s:%s" (hex_of_bytes f.M.f_name) (hex_of_bytes f.M.f_mime)
+                                (match f.M.f_enc with None -> "-" | Some e -> encs e) (hex_of_bytes f.M.f_desc) (content f.M.f_prod) in
+      let l f xs = if xs = [] then "-" else String.concat "," (List.map f xs) in
+      Printf.sprintf "P=%s E=%s T=%s G=%d A=%d F=%d" (l part m.M.m_parts) (l file m.M.m_embeds) (l file m.M.m_attach)
+        (List.length m.M.m_gen) (List.length m.M.m_addr) (match m.M.m_from with None -> 0 | Some _ -> 1)
   | ["wordenc"; _; s; e] -> hex_of_bytes (M.word_encode (n_of_int (if e = "b" then 98 else 113)) (bytes_of_hex s))
   | ["b64"; chunks] | ["b64f"; chunks] ->
       (match M.b64_body (List.concat (byteslist_of chunks)) with
